@@ -11,23 +11,24 @@ From VFS Require Import Core.Types Core.Prog Core.Calls Base.MemFS Base.Handles 
 
 Notation mstate := (gmap (list (list N)) memfile).
 
-(** a path is served from the first layer that has it (upper before lower), unless its deletion
-    marker is present; resolving changes neither layer - for all layer contents and all paths *)
+(** a path is served from the upper layer if it is there; else - unless its deletion marker is
+    present, which hides the lower layers - from the lower one; resolving changes neither layer -
+    for all layer contents and all paths *)
 Theorem C09_served_from_first_layer : forall hs lg ft (s0 s1 : mstate) p, p <> [] ->
   run bhandler (read_path (v0, []) [(v1, [])] p) (mstore2 s0 s1 hs lg ft) =
   (mstore2 s0 s1 hs lg ft,
-   if bool_decide (is_Some (s0 !! whiteout_path (v0, []) p)) then fail ENotFound
-   else if bool_decide (is_Some (s0 !! p)) then Ok (v0, p)
+   if bool_decide (is_Some (s0 !! p)) then Ok (v0, p)
+   else if bool_decide (is_Some (s0 !! whiteout_path (v0, []) p)) then fail ENotFound
    else if bool_decide (is_Some (s1 !! p)) then Ok (v1, p)
    else fail ENotFound).
 Proof. exact read_path_rule. Qed.
 
-(** existence in the overlay is existence in the union minus the deleted paths *)
+(** existence in the overlay: in the upper layer, or in the lower one and not deleted *)
 Theorem C09_exists_is_union : forall hs lg ft (s0 s1 : mstate) p, p <> [] ->
   run bhandler (ovl_exists (v0, []) [(v1, [])] p) (mstore2 s0 s1 hs lg ft) =
   (mstore2 s0 s1 hs lg ft,
-   Ok (negb (bool_decide (is_Some (s0 !! whiteout_path (v0, []) p))) &&
-       (bool_decide (is_Some (s0 !! p)) || bool_decide (is_Some (s1 !! p))))).
+   Ok (bool_decide (is_Some (s0 !! p)) ||
+       (negb (bool_decide (is_Some (s0 !! whiteout_path (v0, []) p))) && bool_decide (is_Some (s1 !! p))))).
 Proof. exact exists_rule. Qed.
 
 (** non-vacuity: a file present in both layers is served from the upper one *)
@@ -35,17 +36,18 @@ Proof. exact exists_rule. Qed.
 Theorem C09_metadata_from_first_layer : forall hs lg ft (s0 s1 : mstate) p, p <> [] ->
   run bhandler (ovl_metadata (v0, []) [(v1, [])] p) (mstore2 s0 s1 hs lg ft) =
   (mstore2 s0 s1 hs lg ft,
-   if bool_decide (is_Some (s0 !! whiteout_path (v0, []) p)) then fail ENotFound
-   else match s0 !! p with
-        | Some f => Ok (mem_meta f)
-        | None => match s1 !! p with Some f => Ok (mem_meta f) | None => fail ENotFound end
-        end).
+   match s0 !! p with
+   | Some f => Ok (mem_meta f)
+   | None =>
+       if bool_decide (is_Some (s0 !! whiteout_path (v0, []) p)) then fail ENotFound
+       else match s1 !! p with Some f => Ok (mem_meta f) | None => fail ENotFound end
+   end).
 Proof. exact metadata_rule. Qed.
 
 (** and so do the bytes: a reader opened through the overlay holds the content of the upper file if
     there is one, else of the lower file *)
 Theorem C09_bytes_from_upper : forall hs lg ft (s0 s1 : mstate) p f, p <> [] ->
-  s0 !! whiteout_path (v0, []) p = None -> s0 !! p = Some f -> f_type f = File ->
+  s0 !! p = Some f -> f_type f = File ->
   run bhandler (ovl_impl (v0, []) [(v1, [])] (COpenFile p)) (mstore2 s0 s1 hs lg ft) =
   (mstore2 (<[p := mkMemFile File (f_content f) (f_created f) (f_modified f) (Some TAuto)]> s0) s1
            (hs ++ [HMemReader (f_content f) 0]) lg ft, Ok (length hs)).
